@@ -38,6 +38,21 @@ struct Shared {
     poison: std::sync::atomic::AtomicBool,
     /// worker indices whose service call panicked
     panicked: Mutex<Vec<usize>>,
+    /// op J: the next service instance that is dropped takes 300 ms to do so and says when it starts
+    slow_drop: std::sync::atomic::AtomicBool,
+    dropping: std::sync::atomic::AtomicBool,
+}
+
+/// Captured by every service instance: stands for a user service with a destructor that takes time.
+#[derive(Clone)]
+struct SlowDrop(Arc<Shared>);
+impl Drop for SlowDrop {
+    fn drop(&mut self) {
+        if self.0.slow_drop.swap(false, Ordering::SeqCst) {
+            self.0.dropping.store(true, Ordering::SeqCst);
+            std::thread::sleep(Duration::from_millis(300));
+        }
+    }
 }
 
 /// in-progress count of a worker; also released when the future is dropped unfinished (worker torn down)
@@ -195,7 +210,9 @@ fn start(w: usize, l: usize, chain: &[String], dir: &PathBuf, sh: &Arc<Shared>, 
                 let tcp = move || {
                     let sh3 = sh2.clone();
                     let w = inst2.fetch_add(1, Ordering::SeqCst) / per_worker;
+                    let slow = SlowDrop(sh3.clone());
                     fn_service(move |s: TcpStream| {
+                        let _ = &slow;
                         let (w, act) = enter(call, w, nworkers, &sh3);
                         serve(s, call, w, act, sh3.clone())
                     })
@@ -204,7 +221,9 @@ fn start(w: usize, l: usize, chain: &[String], dir: &PathBuf, sh: &Arc<Shared>, 
                 let uds = move || {
                     let sh3 = sh2.clone();
                     let w = inst.fetch_add(1, Ordering::SeqCst);
+                    let slow = SlowDrop(sh3.clone());
                     fn_service(move |s: UnixStream| {
+                        let _ = &slow;
                         let (w, act) = enter(call, w, nworkers, &sh3);
                         serve(s, call, w, act, sh3.clone())
                     })
@@ -407,6 +426,35 @@ fn run_once(line: &str, dir: &PathBuf, quiet: Duration) -> String {
                         }
                     }
                     Err(e) => note = format!("!connect:{}", e.kind()),
+                }
+            }
+            b'J' => {
+                let (t1, t2) = rest.split_once(':').unwrap();
+                let (t1, t2): (usize, usize) = (t1.parse().unwrap(), t2.parse().unwrap());
+                cid += 1;
+                sh.dropping.store(false, Ordering::SeqCst);
+                sh.slow_drop.store(true, Ordering::SeqCst);
+                sh.poison.store(true, Ordering::SeqCst);
+                match connect(&run.addrs[t1]) {
+                    Ok(mut c) => {
+                        c.send_id(cid);
+                        poisoned.push(c);
+                    }
+                    Err(e) => note = format!("!connect:{}", e.kind()),
+                }
+                // the dead worker's services are being dropped (300 ms): its connection queue must be closed by now
+                if !wait_until(|| sh.dropping.load(Ordering::SeqCst)) {
+                    note.push_str("!dead-worker-was-not-torn-down");
+                    sh.slow_drop.store(false, Ordering::SeqCst);
+                    sh.poison.store(false, Ordering::SeqCst);
+                }
+                cid += 1;
+                match connect(&run.addrs[t2]) {
+                    Ok(mut c) => {
+                        c.send_id(cid);
+                        clients.push((cid, c));
+                    }
+                    Err(e) => note.push_str(&format!("!connect:{}", e.kind())),
                 }
             }
             b'f' => {
